@@ -8,7 +8,7 @@ import warnings
 warnings.simplefilter("ignore")
 
 
-def gen_condition(rng: random.Random, nested_ok=True):
+def gen_condition(rng: random.Random, nested_ok=True, validate=False):
     nin = 0
 
     def inp():
@@ -17,7 +17,8 @@ def gen_condition(rng: random.Random, nested_ok=True):
         return nin
 
     nt = rng.randint(1, 3)
-    targets = [{"ready": inp() if rng.random() < 0.85 else 0} for _ in range(nt)]
+    targets = [{"ready": inp() if rng.random() < 0.85 else 0, "validate": 1 if (validate and rng.random() < 0.5) else 0}
+               for _ in range(nt)]
     d = {
         "targets": targets,
         "pkind": rng.choice(["T", "M"]),
@@ -66,7 +67,7 @@ def gen_condition(rng: random.Random, nested_ok=True):
     return d
 
 
-def build_condition(d):
+def build_condition(d, netlist_only=False):
     from amaranth import Signal, Module, Elaboratable, Const
     from amaranth.sim import Simulator
     from transactron import TModule, Method, Transaction, def_method
@@ -92,7 +93,9 @@ def build_condition(d):
                 meth = Method(name=f"tgt{k}", i=[("a", 5)])
                 H.tm.append(meth)
 
-                @def_method(m, meth, ready=sig(t["ready"]))
+                kw = {"validate_arguments": (lambda a: a != 31)} if t.get("validate") else {}
+
+                @def_method(m, meth, ready=sig(t["ready"]), **kw)
                 def _(a):
                     pass
 
@@ -164,7 +167,16 @@ def build_condition(d):
     dm = DependencyManager()
     with DependencyContext(dm):
         top = Top()
-        sim = Simulator(Wrap(TransactronContextElaboratable(top, dependency_manager=dm)))
+        wrapped = Wrap(TransactronContextElaboratable(top, dependency_manager=dm))
+        if netlist_only:
+            # structural (bit-level) combinational-cycle check of the elaborated design (C10)
+            from amaranth.hdl import Fragment, _ir, _nir
+            try:
+                _ir.build_netlist(Fragment.get(wrapped, None), ports=[s for s in H.inp[1:]])
+                return False, ""
+            except _nir.CombinationalCycle as ex:
+                return True, str(ex)[:600]
+        sim = Simulator(wrapped)
     sim.add_clock(1e-6)
     return sim, H
 
